@@ -243,6 +243,16 @@ def run(ctx: core.Run):
             docorr = sizes[name] <= CORR_MAX_BYTES and k < per_fx_corr
             k += 1
             add(kind="mutant", corr=docorr, fixture=name, edits=rec["edits"], rec=rec)
+        # every skeleton length/count x (+-1, +-2, x2, max) and a truncation at every block boundary
+        if quick or sizes[name] <= 60_000:
+            for _, rec in lc.exhaustive_len_mutants(sm, ("+1", "-1", "x2", "max") if quick else
+                                                    ("+1", "-1", "+2", "-2", "x2", "max")):
+                rec["fixture"] = name
+                add(kind="mutant", corr=False, fixture=name, edits=rec["edits"], rec=rec)
+        if sizes[name] <= 300_000:
+            for _, rec in lc.boundary_truncations(sm, skeleton_only=quick):
+                rec["fixture"] = name
+                add(kind="mutant", corr=False, fixture=name, edits=rec["edits"], rec=rec)
         if sizes[name] <= 300_000:
             for _ in range(n // 10):
                 add(kind="leaf", corr=False, fixture=name, leaf_seed=rng.getrandbits(48),
@@ -392,7 +402,8 @@ def run(ctx: core.Run):
         "of the structural map of each fixture (every primitive read of the real parser: %d fields in %d fixtures this run): "
         "+-1/+-2/+-4/x2/half/max/zero/sign on numeric fields (length fields, counts, ids, flags), bit flips and byte "
         "substitutions inside structural fields, multi-byte substitutions, two fields at once, truncation at block "
-        "boundaries (+-2), splices of length blocks between files, duplication/deletion of blocks, and structure-level "
+        "boundaries (+-2), splices of length blocks between files, duplication/deletion of blocks, exhaustively +-1/+-2/x2/max "
+        "on every 2/4/8-byte numeric field of a skeleton class and a truncation at every block boundary (small fixtures), and structure-level "
         "leaf mutations (parse, set one scalar leaf to an extreme, write). 70 %% of the in-place mutations hit skeleton "
         "classes, 30 %% payload classes." % (ctx.extra["structural_map"]["fields"], len(maps)))
     ctx.model_coverage = {
